@@ -250,6 +250,16 @@ func init() {
 		for i := 0; i < n; i++ {
 			cs = append(cs, genHistory(r))
 		}
+		// process-wide state keyed by Go type (the struct field cache): the same struct type executed with
+		// different values, in either order, must behave as on first use
+		for i := 0; i < n/3; i++ {
+			for _, c := range genStructCases(r) {
+				if c.Stream == "structs" {
+					c.Stream = "typecache-history"
+					cs = append(cs, c)
+				}
+			}
+		}
 		return cs
 	}})
 }
